@@ -198,7 +198,24 @@ func cmdCheck(args []string) int {
 	for _, o := range w.Orphans {
 		missing = append(missing, "orphan contract "+o)
 	}
-	discharge(obls, dischargeOpts{OutDir: outDir, TimeoutS: timeout, Seed: seed, CrossCheck: *tier == "thorough", Workers: 8})
+	dopt := dischargeOpts{OutDir: outDir, TimeoutS: timeout, Seed: seed, CrossCheck: *tier == "thorough", Workers: 8}
+	if *tier != "thorough" {
+		// quick: one incremental session per function first; thorough races (and cross-checks) everything
+		groups := map[*Script][]*Obligation{}
+		var order []*Script
+		for _, o := range obls {
+			if _, ok := groups[o.Script]; !ok {
+				order = append(order, o.Script)
+			}
+			groups[o.Script] = append(groups[o.Script], o)
+		}
+		var gl [][]*Obligation
+		for _, sc := range order {
+			gl = append(gl, groups[sc])
+		}
+		batchDischarge(gl, dopt, 2000)
+	}
+	discharge(obls, dopt)
 
 	// required obligations present?
 	var vanished []string
